@@ -26,6 +26,18 @@ CHECKS = {
              "afterwards that null, isnull(null), typeof(null) and all variables still mean the same. The space is finite and enumerated completely.",
         note="trusted: Kleene tables, print formatting of TRUE/FALSE/null; conditions of undefined static type refused at compile time are not counted",
         design="DESIGN.md section 4, C04"),
+    "C06": dict(
+        engine="E1 space",
+        technique="bounded exhaustive enumeration of loop headers and of all nestings of control statements, each run on the real interpreter and compared step by step with a reference interpreter",
+        text="(a) Every for header over first/limit in {MIN, MIN+1, -2..2, MAX-1, MAX, null} x step in {absent, null, MIN, -1, 0, 1, 2, MAX} x {auto, asc, desc}, "
+             "every short range run to completion near 0 / INT64_MAX / INT64_MIN including bodies that write the control variable, and forall over tables of "
+             "length 0..3; (b) every program of a nesting grammar (if/else, for, while, forall, begin+handler around blocks of print / break / continue / return / "
+             "raise / control-variable write) to depth 2 (quick) or 3 (thorough), at top level and inside a function. Each program's printed trace, result, "
+             "reported error and final loop variables are compared with the reference interpreter vf/ctl.py; a deterministic step budget separates termination "
+             "from non-termination; probe statements then check in the same context that no iterator constraint, table lock, pending break/continue, control "
+             "entry or block level is left behind.",
+        note="trusted: the reference interpreter (structured semantics of the manual), the step budget (200000 statements) as the non-termination verdict",
+        design="DESIGN.md section 4, C06"),
 }
 
 NOT_YET = {}
